@@ -91,6 +91,19 @@ def strong_cases(draw):
     if objs and draw(st.integers(0, 4)) > 0:
         big = [c['name'] for c in spec['classes'] if c['name'] in objs and len(c['params']) >= 2]
         spec = dict(spec, doc_type=['ref', draw(st.sampled_from(big or objs))])
+    if draw(st.integers(0, 3)) == 0:
+        # a class with many attributes (messages are worded differently from 8 up)
+        n = draw(st.integers(6, 11))
+        ptypes = ['int', 'str', 'float', 'bool', ['list', 'int'], ['opt', 'str']]
+        wide = {'name': 'Wide', 'kind': 'obj', 'bases': [], 'params': [
+            {'name': 'w%d_attr' % i, 'type': draw(st.sampled_from(ptypes))} for i in range(n)]}
+        nopt = draw(st.integers(0, 2))
+        for p in wide['params'][n - nopt:]:
+            p['type'] = 'int'
+            p['default'] = ['int', 0]
+        spec = dict(spec, classes=spec['classes'] + [wide], order=list(spec['order']) + ['Wide'],
+                    doc_type=draw(st.sampled_from([['ref', 'Wide'], ['list', ['ref', 'Wide']],
+                                                   ['dict', 'str', ['ref', 'Wide']]])))
     v = draw(gen.vspec_for(spec, spec['doc_type'], hard=False, omit_defaults=False))
     if v is None:
         return {'kind': 'strong', 'model': spec, 'tree': None}
